@@ -27,6 +27,8 @@
 (*          transaction that the host does not have confirmed either       *)
 (*          (unconf) | unconfirmed for the renter, but the blocks the      *)
 (*          renter lacks confirmed the parent on the host's chain (unconfc)*)
+(*          | confirmed, but created by a block of the renter's own stale   *)
+(*          fork, i.e. it does not exist below the common ancestor (forkc) *)
 (*   fault  none | dial | cutBk / cutAk (message k cut: the sender's write *)
 (*          fails / succeeds but the message is lost) | mK<what> (message  *)
 (*          K corrupted) | bcast (the host's broadcast fails)              *)
@@ -81,6 +83,7 @@ EarlyFaults == {"none", "dial", "cutB1", "cutA1", "cutB2", "cutA2", "m1basis", "
 Descs == {x \in [kind : Kinds, pv : PVs, basis : Bases, inp : Inps, fault : Faults] :
             /\ PVApplies(x.kind, x.pv)
             /\ (x.inp = "unconfc" => x.basis # "same")   \* needs blocks the renter has not seen
+            /\ (x.inp = "forkc" => x.basis \in {"fork", "forkx"})
             /\ (x.pv # "ok" => x.fault \in EarlyFaults)}
 NoDesc == [kind |-> "-", pv |-> "-", basis |-> "-", inp |-> "-", fault |-> "-"]
 
@@ -94,6 +97,7 @@ CutA(k) == d.fault = "cutA" \o ToString(k)
 \* input gets its proof from the confirming block, and the final set is the contract transaction
 \* alone (shorter than the renter's own set; the renter must accept that)
 RebaseFails == \/ d.basis = "forkx"                       \* it never saw the renter's fork
+               \/ d.inp = "forkc"                        \* reverting the fork removes the element the input spends
                \/ d.fault = "m1basis"                     \* unknown basis
                \/ (d.basis # "same" /\ d.inp = "conf" /\ d.fault = "m1value")  \* element invalid at the claimed basis
 \* the pool rejects the final set when a renter signature does not cover the host's transaction
